@@ -96,7 +96,7 @@ def _collect(shard, seed, n):
 
 
 def main(ctx):
-    col = common.run_shards(_collect, 8 if ctx.quick else 16, ctx.seed, n=35 if ctx.quick else 1000)
+    col = common.run_shards(_collect, 8 if ctx.quick else 16, ctx.seed, n=120 if ctx.quick else 2500)
     for path, rec in common.load_replays(PID):
         col.record(rec["case"], run_case(rec["case"]), nontrivial=True, classes=["replay"])
     ctx.required_classes = ["two-requests-in-one-segment", "reconnect", "outbound-backlog", "several-base-requests"]
